@@ -34,6 +34,7 @@ type Case struct {
 	Index   uint32 // BIP-32 index for derived material
 	Seed    uint64
 	Sched   []int
+	Reuse   int // further signing sessions run afterwards on the same in-memory key material
 }
 
 func subsetShape(signers []int, n int) string {
@@ -77,7 +78,8 @@ func schedShape(s []int) string {
 func classify(c Case) (string, bool) {
 	shape := subsetShape(c.Signers, c.N)
 	nt := shape == "non-prefix" || len(c.Msg) != 64 || c.KeyKind != "dealer" && c.KeyKind != "keygen" || schedShape(c.Sched) != "reorder=false,dup=false"
-	return fmt.Sprintf("%s|n=%d|t=%d|s=%d|%s|msg%s|%s|%s|%s", c.Proto, c.N, c.T, len(c.Signers), shape, msgClass(len(c.Msg)/2), c.KeyKind, c.Family, schedShape(c.Sched)), nt
+	nt = nt || c.Reuse > 0
+	return fmt.Sprintf("%s|n=%d|t=%d|s=%d|%s|msg%s|%s|%s|%s|reuse=%d", c.Proto, c.N, c.T, len(c.Signers), shape, msgClass(len(c.Msg)/2), c.KeyKind, c.Family, schedShape(c.Sched), c.Reuse), nt
 }
 
 // material builds the key material described by the case; pub is what the independent verifier uses.
@@ -147,17 +149,35 @@ func run(c Case) *pbt.Fail {
 		}
 		return pbt.Failf("setup-error:"+c.Scheme+":"+c.KeyKind, err.Error())
 	}
-	msg := conv.UnHex(c.Msg)
-	var signers []party.ID
-	for _, i := range c.Signers {
-		signers = append(signers, m.IDs[i])
+	for r := 0; r <= c.Reuse; r++ {
+		// session r uses the SAME in-memory key material as the sessions before it (a key is used to sign many times),
+		// with its own message, session identifier and (rotated) signer subset
+		msg := conv.UnHex(c.Msg)
+		if r > 0 {
+			msg = append(msg, byte(r))
+		}
+		var signers []party.ID
+		for _, i := range c.Signers {
+			signers = append(signers, m.IDs[(i+r)%len(m.IDs)])
+		}
+		if f := signOnce(c, m, signers, msg, r); f != nil {
+			if r > 0 {
+				f.Detail = fmt.Sprintf("in signing session %d with the same key material: %s", r+1, f.Detail)
+			}
+			return f
+		}
 	}
-	sid := []byte(fmt.Sprintf("c01-%d", c.Seed))
+	return nil
+}
+
+func signOnce(c Case, m *proto.Material, signers []party.ID, msg []byte, r int) *pbt.Fail {
+	sid := []byte(fmt.Sprintf("c01-%d-%d", c.Seed, r))
+	seed := c.Seed + uint64(10*r)
 	p := c.Proto
 	var pre *proto.Session
 	if p == proto.CMPPresignOnline {
 		ps := m.SignSession(proto.CMPPresign, signers, nil, sid)
-		res, _, err := proto.RunHonest(ps, c.Seed+2, sim.FromList(c.Sched))
+		res, _, err := proto.RunHonest(ps, seed+2, sim.FromList(c.Sched))
 		if err != nil {
 			return failFrom("presign", err)
 		}
@@ -172,7 +192,7 @@ func run(c Case) *pbt.Fail {
 	if s == nil {
 		s = m.SignSession(p, signers, msg, sid)
 	}
-	res, _, err := proto.RunHonest(s, c.Seed+3, sim.FromList(c.Sched))
+	res, _, err := proto.RunHonest(s, seed+3, sim.FromList(c.Sched))
 	if err != nil {
 		return failFrom(p, err)
 	}
@@ -237,6 +257,11 @@ func genCase(t *rapid.T, scheme string, protos []string, maxN int, kinds []strin
 	c.Index = rapid.SampledFrom([]uint32{0, 1, 1<<31 - 1, 7, 1000003}).Draw(t, "index")
 	c.Seed = rapid.Uint64Range(1, 1<<40).Draw(t, "seed")
 	c.Sched = rapid.SliceOfN(rapid.IntRange(0, 8191), 0, 40).Draw(t, "sched")
+	if scheme == proto.SchemeCMP {
+		c.Reuse = rapid.SampledFrom([]int{0, 0, 0, 1}).Draw(t, "reuse")
+	} else {
+		c.Reuse = rapid.SampledFrom([]int{0, 1, 2}).Draw(t, "reuse")
+	}
 	return c
 }
 
